@@ -97,7 +97,8 @@ Exch(nw, o) ==
   [req |-> ReqBytes(cur.kind), nw |-> nw,
    replies |-> IF HasReply(o) THEN <<ReplyBytes(cur.kind, o)>> ELSE <<>>,
    out |-> Env(o), st |-> cstate, impl |-> IF implicit THEN "on" ELSE "off", ana |-> cur.ana,
-   illegal |-> o \in {"Mismatch", "Malformed"}]
+   illegal |-> o \in {"Mismatch", "Malformed"},
+   done |-> HasReply(o)]
 
 Send ==                           \* transport.write: the request is on the wire
   /\ pc = "presend"
